@@ -309,12 +309,47 @@ def ev(fn, n, env):
         if f is not None and f in env.sizes:
             return env.sizes[f]
         raise Unknown(render(n))
+    if k == "MCall" and strip(n.get("obj") or {}).get("k") == "This" and not n.get("a"):
+        # zero-argument accessor `bool _is_open() const { return _open; }`
+        h = accessor_body(fn, n)
+        if h is not None:
+            return ev(h[0], h[1], env)
+        raise Unknown(render(n))
     if k == "Call" and re.search(r"::(min|max)$", n.get("callee", "")) and len(n.get("a", [])) == 2:
         a, b = ev(fn, n["a"][0], env), ev(fn, n["a"][1], env)
         return min(a, b) if n["callee"].endswith("min") else max(a, b)
     if k == "Cond":
         return ev(fn, n["then"], env) if ev(fn, n["c"], env) else ev(fn, n["else"], env)
     raise Unknown(render(n))
+
+
+def accessor_body(fn, call):
+    """(function, returned expression) of a non-virtual zero-argument member function called on `this`
+    whose body is a single return statement, else None"""
+    facts = CUR.get("facts")
+    if facts is None or not fn.cls:
+        return None
+    c = [f for f in facts.functions if f.cls == fn.cls and f.full == call.get("cfull")]
+    if len(c) != 1 or c[0].d.get("virtual") or c[0].params or c[0].body is None:
+        return None
+    body = c[0].body.get("s", [])
+    if len(body) == 1 and body[0].get("k") == "Return" and body[0].get("e") is not None:
+        return c[0], body[0]["e"]
+    return None
+
+
+def fields_read(fn, e, depth=0):
+    """member fields of `this` read by expression e, accessor helpers included"""
+    out = set()
+    for x in walk(e or {}):
+        f_ = this_field(x)
+        if f_ is not None and x.get("k") == "Member":
+            out.add(f_)
+        if x.get("k") == "MCall" and strip(x.get("obj") or {}).get("k") == "This" and depth < 2:
+            h = accessor_body(fn, x)
+            if h is not None:
+                out |= fields_read(h[0], h[1], depth + 1)
+    return out
 
 
 SENTINEL = sympy.Symbol("SENTINEL")
@@ -739,6 +774,13 @@ class WorkerModel:
                 if n.get("k") == "Member" and n.get("n") == name and not n.get("field"):
                     if n.get("qn") in self.consts:
                         return self.consts[n["qn"]]
+                if n.get("k") == "Ref" and n.get("dk") == "smember" and (n.get("qn") or "").endswith("::Task::" + name) and "v" in n:
+                    return int(n["v"])          # `TaskType::need_scatter` (if constexpr form)
+        # the worker code may not mention the flag in any instantiated branch (`if constexpr`): the
+        # driver exposes Job::Task::<flag> for the job this worker is instantiated for
+        if "::Worker<" in self.cls:
+            job = self.cls[self.cls.index("::Worker<") + len("::Worker<"):-1]
+            return self.consts.get("flag:%s:%s" % (job, name), self.consts.get(job + "::Task::" + name))
         return None
 
     def env(self, ident, nwork, strategy):
@@ -1018,14 +1060,15 @@ def rule_fence(ck, facts):
         else:
             # every path from the wait call to the exit re-tests a branch condition that reads the state
             cblocks = [b["id"] for b in fx.cfg.blocks.values() if b.get("cond") is not None and len(b.get("succ", [])) == 2
-                       and ({this_field(x) for x in walk(w.by_id(b["cond"]))} & state)]
+                       and (fields_read(w, w.by_id(b["cond"])) & state)]
             pos = fx.pos(c)
-            esc = fx.reach((pos[0], pos[1] + 1), target_blocks=[fx.cfg.exit], avoid_blocks=cblocks)
+            # the wait's own block may end in the re-test (`wait(lock); if(open) break;`)
+            esc = None if pos[0] in cblocks else fx.reach((pos[0], pos[1] + 1), target_blocks=[fx.cfg.exit], avoid_blocks=cblocks)
             loops = fx.enclosing_loops(c)
             ok = esc is None and bool(cblocks)
             helper_pred = any(is_call(x) for b in fx.cfg.blocks.values() if b.get("cond") is not None for x in walk(w.by_id(b["cond"]) or {})
-                              if x.get("callee") != c.get("callee"))
-            if not ok and (helper_pred or opaque_calls(fx)):
+                              if x.get("callee") != c.get("callee") and accessor_body(w, x) is None)
+            if not ok and (helper_pred or [x for x in opaque_calls(fx) if accessor_body(w, x) is None]):
                 ck.incomplete(R, "ThreadFence::wait: the branch conditions around condition_variable::wait call helpers; the re-test of the fence state is not visible")
             else:
                 ck.ob(R, "ThreadFence::wait/predicate-loop", ok,
@@ -1093,7 +1136,7 @@ def rule_fence(ck, facts):
                     cut.append((b["id"], s_open))   # the edge taken when the fence is open
         if not cut and not establishing and not waits_:
             raise Unknown("neither a test of the fence state nor a condition-variable wait found in wait()")
-        if opaque_calls(fx):
+        if [x for x in opaque_calls(fx) if accessor_body(w, x) is None]:
             raise Unknown("wait() calls helpers")
         esc = fx.reach((fx.cfg.entry, 0), target_blocks=[fx.cfg.exit], avoid_stmts=establishing, cut_edges=cut, avoid_blocks=fx.cfg.noreturn_blocks())
         timed = [n for n in waits_ if not n.get("callee", "").split("<")[0].endswith("::wait")]
@@ -1107,16 +1150,50 @@ def rule_fence(ck, facts):
 
     # --- state machine: ctor/close block, open releases; okay round trip
     R = "E14.fence-state-machine"
-    if pred_cond is None:
-        ck.incomplete(R, "ThreadFence::wait: blocking predicate (while-condition / predicate lambda) not identified")
+
+    def would_block(env):
+        """wait() entered in the state `env`: True if it reaches a condition-variable wait that sleeps
+        (no predicate, or predicate false) before a return, False if it returns without sleeping;
+        loop forms, predicate lambdas and accessor helpers alike (concrete walk of the CFG)"""
+        seen = set()
+        b_ = fx.cfg.entry
+        for _step in range(64):
+            if b_ in seen or b_ == fx.cfg.exit:
+                return False
+            seen.add(b_)
+            blk = fx.cfg.blocks[b_]
+            for e_ in blk["el"]:
+                n_ = w.by_id(e_)
+                if n_ is not None and n_.get("k") == "MCall" and n_.get("callee", "").startswith("std::condition_variable::wait"):
+                    nm = n_["callee"].split("<")[0].rsplit("::", 1)[-1]
+                    na = len(n_.get("a", []))
+                    if (nm == "wait" and na == 2) or (nm in ("wait_for", "wait_until") and na == 3):
+                        lam = strip(n_["a"][-1])
+                        body = (lam.get("body") or {}).get("s", []) if lam.get("k") == "Lambda" else []
+                        if len(body) != 1 or body[0].get("k") != "Return":
+                            raise Unknown("predicate of the condition wait is not a single-return lambda")
+                        if not ev(w, body[0]["e"], env):
+                            return True
+                        env.callvals[n_["i"]] = 1       # a (timed) predicate wait returns the predicate's value
+                    else:
+                        return True
+            nxt = eval_succ(fx, blk, env)
+            if len(nxt) != 1:
+                if not nxt:
+                    return False
+                raise Unknown("branch `%s` in wait() not decided by the fence state" % render(w.by_id(blk["cond"]) or {}))
+            b_ = nxt[0]
+        raise Unknown("walk of wait() did not terminate")
+    if not cw:
+        ck.incomplete(R, "ThreadFence::wait: no condition-variable wait found")
     else:
-        def blocked(assign, fn):
+        def state_env(assign):
             env = Env()
             for fld, v in assign.items():
                 v = strip(v)
                 if v.get("k") == "Bool":
                     env.fields[fld] = 1 if v["v"] else 0
-            return ev(w, pred_cond, env)
+            return env
         try:
             init = {i["member"]: i["init"] for i in ctor.d.get("inits", []) or [] if i.get("member") and i.get("init")}
             for who, fn, want in (("ThreadFence()", ctor, 1), ("close", meth["close"], 1), ("open", meth["open"], 0)):
@@ -1124,9 +1201,9 @@ def rule_fence(ck, facts):
                     assign = init if fn is ctor else method_assigns(fn)
                     if fn is not ctor and [x for x in opaque_calls(FX(fn)) if not (x.get("k") == "MCall" and (x.get("obj") or {}).get("k") == "This")]:
                         raise Unknown("`this` is handed to another function in %s()" % who)
-                    b = blocked(assign, fn)
+                    b = 1 if would_block(state_env(assign)) else 0
                     ck.ob(R, "ThreadFence/%s" % who, b == want,
-                          "after %s the wait predicate `%s` is %s (%s expected: the fence must %s)" % (who, render(pred_cond), bool(b), bool(want), "block" if want else "let waiters pass"),
+                          "after %s a thread entering wait() %s (%s expected: the fence must %s)" % (who, "sleeps on the condition variable" if b else "returns without sleeping", "sleeping" if want else "passing", "block" if want else "let waiters pass"),
                           fn.file, fn.line)
                 except Unknown as e:
                     ck.incomplete(R, "%s: the state read by the wait predicate is not set to constants by plain assignments (%s)" % (who, e))
@@ -1137,13 +1214,17 @@ def rule_fence(ck, facts):
     op = meth["open"]
     try:
         oas = method_assigns(op)
-        rf = this_field(rets[0].get("e")) if len(rets) == 1 else None
-        if rf is None:
-            # e.g. a local copy taken under the lock
-            r0 = strip(rets[0].get("e") or {}) if len(rets) == 1 else {}
-            if r0.get("k") == "Ref" and r0.get("dk") == "local":
-                ini = single_def_inits(w).get(r0["d"])
-                rf = this_field(ini) if ini is not None else None
+        def returned_field(r):
+            f_ = this_field(r.get("e"))
+            if f_ is None:
+                # e.g. a local copy taken under the lock
+                r0 = strip(r.get("e") or {})
+                if r0.get("k") == "Ref" and r0.get("dk") == "local":
+                    ini = single_def_inits(w).get(r0["d"])
+                    f_ = this_field(ini) if ini is not None else None
+            return f_
+        rfs = {returned_field(r) for r in rets}
+        rf = rfs.pop() if len(rfs) == 1 else None      # several returns of the same member (early return) are one
         if rf is None or len(op.params) != 1:
             raise Unknown("wait() does not return a state member / open() does not take one status parameter")
         src = strip(oas.get(rf) or {})
@@ -1346,6 +1427,13 @@ def build_models(facts, tag=""):
         for n in f.nodes():
             if n.get("k") == "Ref" and n.get("dk") == "smember" and "v" in n and n.get("qn"):
                 consts[n["qn"]] = int(n["v"])
+    # the driver's c17_flags<Job>() exposes Job::Task::need_scatter / need_combine as evaluated constants
+    for f in facts.functions:
+        if f.name.startswith("c17_flags") and "<" in f.full:
+            jobname = f.full[f.full.index("<") + 1:f.full.rindex(">")]
+            for n in f.nodes():
+                if n.get("k") == "Var" and n.get("n") in ("need_scatter", "need_combine") and "v" in strip(n.get("init") or {}):
+                    consts["flag:%s:%s" % (jobname, n["n"])] = int(strip(n["init"])["v"])
     classes = sorted({f.cls for f in facts.functions if re.search(r"DomainAssembler<.*>::Worker<", f.cls) and f.name == "operator()"})
     jobs = []
     for cls in classes:
@@ -1579,6 +1667,18 @@ def rule_combine(ck, job, vctx):
             ck.incomplete(R, "%s::%s: %s" % (job.name, variant, e))
             continue
         maxn = max(c[1] for c in vctx[variant])
+        if not calls:
+            # no combine() in this instantiation of the variant
+            key = "%s::%s/combine" % (job.name, variant)
+            nc = wm.flag("need_combine")
+            elsewhere = [f_.name for f_ in wm.methods.values() if f_.name not in vctx and any(task_call(x, "combine") for x in f_.nodes())]
+            if nc == 0:
+                ck.ob(R, key, True, "no task->combine() in this instantiation: Task::need_combine is false (the call is compiled out by `if constexpr`)", fn.file, fn.line)
+            elif elsewhere or nc is None:
+                ck.incomplete(R, "%s: the variant does not call combine(); %s" % (key, "combine() is called in %s, whose locking is not followed from here" % elsewhere if elsewhere else "need_combine is not known"))
+            else:
+                ck.ob(R, key, False, "Task::need_combine is true, but %s (nor a member helper it calls) never calls task->combine(): the per-thread results of this worker are dropped" % variant, fn.file, fn.line)
+            continue
         for k, (cfn, c, chain) in enumerate(calls):
             # the lock may be held at the call itself (same function, helper included) or at the call
             # of the helper that contains it
@@ -3704,12 +3804,20 @@ def rule_reduction(ck, extra, tag):
                 ck.ob(R, "%s%s/need_combine" % (tname, tag), flags[cb.cls] == 1,
                       "combine() reduces a task-local result and Task::need_combine is %s%s" % (bool(flags[cb.cls]), "" if flags[cb.cls] else ": the workers never call combine(), the per-thread results are dropped"),
                       cb.file, cb.line)
+        cfx = FX(cb)
         for st in sts:
             st_ = strip(st)
-            recv, arg = this_field(st_.get("obj")) if st_.get("k") == "MCall" else None, None
+            if st_.get("k") in ("Decl",) and all(v.get("ref") for v in st_.get("vars", [])):
+                continue            # reference aliases of members, resolved below
+            recv, arg, g = None, None, None
             if st_.get("k") == "MCall" and len(st_.get("a", [])) == 1:
-                arg = this_field(st_["a"][0])
-            g = by_full.get(st_.get("cfull") or "") if st_.get("k") == "MCall" else None
+                # job_object.reduce(task_local)
+                recv, arg = this_field(resolve_alias(cfx, st_.get("obj"))), this_field(resolve_alias(cfx, st_["a"][0]))
+                g = by_full.get(st_.get("cfull") or "")
+            elif st_.get("k") == "OpCall" and st_.get("op") == "+=" and len(st_.get("a", [])) == 2:
+                # job_object += task_local (member operator)
+                recv, arg = this_field(resolve_alias(cfx, st_["a"][0])), this_field(resolve_alias(cfx, st_["a"][1]))
+                g = by_full.get(st_.get("cfull") or "")
             if recv is None or arg is None or g is None or len(g.params) != 1 or g.cls not in (g.type(g.params[0]["t"]) or ""):
                 ck.incomplete(R, "%s%s::combine(): statement `%s` (line %s) is not `job_object.reduce(task_local_object)` with a reduction defined in the analysed headers" % (tname, tag, render(st)[:80], st.get("l")))
                 continue
@@ -3952,7 +4060,15 @@ def rule_shared_writes(ck, facts, tag):
                         rr = resolve_alias(fx, recv)
                         root, _p = elem_root(rr)
                         h = this_field(root) if root is not None else None
-                        if h in handles and not n.get("cconst"):
+                        par = fx.parent.get(id(n))
+                        while par is not None and par.get("k") == "Cast":
+                            par = fx.parent.get(id(par))
+                        vt_ = re.sub(r"\s*const\s*$", "", (f.type(par.get("t")) or "").strip()) if par is not None and par.get("k") == "Var" else ""
+                        # pointer / reference to const (west or east const): `const T *`, `T const *`, `const T &`
+                        ro_bound = bool(vt_) and vt_[-1] in "*&" and re.search(r"\bconst\b", vt_[:-1].rsplit("*", 1)[-1]) is not None
+                        if h in handles and not n.get("cconst") and ro_bound:
+                            pass        # `const DT* p = vector.elements();`: a non-const accessor used for reading only
+                        elif h in handles and not n.get("cconst"):
                             if n.get("k") == "OpCall" and n.get("op") in ("()", "[]") and args and cell_owned(f, args[0]):
                                 owned.setdefault(h, []).append((ph, n.get("l")))        # entry of the cell this worker owns
                             else:
